@@ -253,9 +253,26 @@ class Interp:
         return self.symbolic(et, (), (coll.seq, kkey))
 
     # ------------------------------------------------------------------ memory
+    def simplify(self, st, L):
+        """replace `x mod m` by x, and bit slices / quotients by 0, when the path condition entails it
+        (keeps the names of memory cells canonical: equal offsets get equal byte atoms)"""
+        out = None
+        for a, c in L.t.items():
+            rep = None
+            if a[0] == "mod":
+                t = Lin.from_key(a[1])
+                if solver.entails_lit(st.pc, eq(Lin.atom(a), t)):
+                    rep = t
+            elif a[0] in ("sl", "div"):
+                if solver.entails_lit(st.pc, eq(Lin.atom(a), 0)):
+                    rep = lin(0)
+            if rep is not None:
+                out = (out if out is not None else L) - Lin.atom(a, c) + rep.scale(c)
+        return out if out is not None else L
+
     def read_byte(self, st, base, off, e=None):
         """IntV(u8) content of base[off] after the writes recorded in st.mem"""
-        off = lin(off)
+        off = self.simplify(st, lin(off))
         ws = st.mem.get(base)
         if ws:
             for w in reversed(ws):
